@@ -99,8 +99,8 @@ def check_group(rep, g, tier, seed):
             Jr, Jl = c.out("rjac"), c.out("ljac")
             for k, direction in c.directions("t"):
                 d = c.D(direction, TX)
-                c.eq("rjac_is_right_differential_of_exp/dt%d" % k, d, np.dot(TX, sp.hat(list(Jr[:, k]))), "DERIV")
-                c.eq("ljac_is_left_differential_of_exp/dt%d" % k, d, np.dot(sp.hat(list(Jl[:, k])), TX), "DERIV")
+                c.eq("rjac_is_right_differential_of_exp/dt%d" % k, d, np.dot(TX, sp.hat_h(list(Jr[:, k]))), "DERIV")
+                c.eq("ljac_is_left_differential_of_exp/dt%d" % k, d, np.dot(sp.hat_h(list(Jl[:, k])), TX), "DERIV")
             c.eq("ljac_is_rjac_of_minus_t", Jl, c.out("rjac_neg"))
         taylor.with_taylor(c, TAU, obl)
 
@@ -131,7 +131,7 @@ def check_group(rep, g, tier, seed):
         TX = sp.T(c.E["x"])
         A = c.out("adj")
         for k in range(sp.dof):
-            c.eq("adj_is_conjugation/e%d" % k, np.dot(TX, sp.basis(k)), np.dot(sp.hat(list(A[:, k])), TX))
+            c.eq("adj_is_conjugation/e%d" % k, np.dot(TX, sp.basis_h(k)), np.dot(sp.hat_h(list(A[:, k])), TX))
 
     # ---- homomorphism
     for c in _feasible_paths(rep, HARNESS, g, "adj_compose", [("x", "G"), ("y", "G")], seed, "adj_compose"):
